@@ -65,6 +65,12 @@ type connEpoch struct {
 	End     Stamp  // zero Seq: still open at the end of the observation
 	EndWhy  string // "discreq", "async-reconnect", "discres", "close", "refused", "reconnect-timeout"
 	Ambig   int    // index into rx of the one frame whose consumption is ambiguous at End (-1: none)
+	// StallUntil bounds the instant at which the receive loop really starts to work in this
+	// epoch: after the connect response the loop waits for the sender lock, i.e. for every Send
+	// that was in progress or queued when the response was read (each takes at most T). While
+	// it waits, one frame sits in the socket's hand-off and is consumed late.
+	StallUntil time.Duration
+	Pending    int
 }
 
 type connModel struct {
@@ -99,96 +105,120 @@ func buildConnModel(v *tunView) *connModel {
 		st := r.h.Closes[0].Inv
 		m.closeInv = &st
 	}
-	// connect attempts: a ConnReq whose predecessor ConnReq is more than R+eps older starts a new attempt
-	var attempts []Stamp
-	var lastConnReq time.Duration = -1 << 60
+	// Merge the stream of frames read by the client with its own connect requests, by event number.
+	type ev struct {
+		at  Stamp
+		rxi int // index into v.rx, or -1 for a connect request written by the client
+	}
+	var evs []ev
+	for i, x := range v.rx {
+		evs = append(evs, ev{x.At, i})
+	}
 	for _, x := range v.tx {
 		if x.F.OK && x.F.Svc == svcConnReq && !x.Werr {
-			if x.At.T-lastConnReq > r.c.R+v.eps || len(attempts) == 0 {
-				attempts = append(attempts, x.At)
-			}
-			lastConnReq = x.At.T
+			evs = append(evs, ev{x.At, -1})
 		}
 	}
-	m.connReqTx = attempts
-	// Walk the read stream.
+	sort.SliceStable(evs, func(i, j int) bool { return evs[i].at.Seq < evs[j].at.Seq })
 	const (
 		mdConnecting = iota
 		mdProcess
 		mdDead
 	)
 	mode := mdConnecting
-	att := 0 // index of the connect attempt we are in
 	var cur *connEpoch
-	nextAsync := func(after uint64) (Stamp, bool) {
-		// next connect attempt that starts after the given event
-		for _, a := range attempts {
-			if a.Seq > after {
-				return a, true
-			}
-		}
-		return Stamp{}, false
-	}
+	var attempt *Stamp // first transmission of the connect attempt in progress
+	lastRx := -1       // index of the last frame read so far
 	endEpoch := func(at Stamp, why string, ambig int) {
 		if cur != nil {
 			cur.End, cur.EndWhy, cur.Ambig = at, why, ambig
 			cur = nil
 		}
 	}
-	for i, x := range v.rx {
-		m.mode[i] = -1
-		if m.closeInv != nil && x.At.Seq > m.closeInv.Seq {
+	for _, ev := range evs {
+		if m.closeInv != nil && ev.at.Seq > m.closeInv.Seq {
 			// after Close was invoked nothing is required of frames still being read
-			m.mode[i] = -2
+			if ev.rxi >= 0 {
+				m.mode[ev.rxi] = -2
+			}
 			continue
 		}
-		if mode == mdProcess {
-			// did an asynchronous reconnect start before this frame was read?
-			if a, ok := nextAsync(cur.Start.Seq); ok && a.Seq < x.At.Seq {
+		if ev.rxi < 0 {
+			// the client wrote a connect request
+			if mode == mdProcess && ev.at.T == cur.Start.T {
+				// The connect exchange polls its resend ticker and the socket in one select: a
+				// retransmission may still leave in the instant in which the response has been
+				// read but not yet taken. (A heartbeat failure cannot happen in that instant.)
+				continue
+			}
+			switch mode {
+			case mdProcess:
+				// asynchronous reconnect (heartbeat failure): the receive loop left the epoch
+				// before this instant; the one frame read last may not have been processed
 				amb := -1
-				if i > 0 && m.mode[i-1] == len(m.epochs)-1 {
-					amb = i - 1
-					m.mode[i-1] = -2
+				if lastRx >= 0 && m.mode[lastRx] == len(m.epochs)-1 {
+					amb = lastRx
+					m.mode[lastRx] = -2
 				}
-				endEpoch(a, "async-reconnect", amb)
+				endEpoch(ev.at, "async-reconnect", amb)
 				m.asyncReconnects++
 				mode = mdConnecting
+				st := ev.at
+				attempt = &st
+				m.connReqTx = append(m.connReqTx, ev.at)
+			case mdConnecting:
+				if attempt == nil {
+					st := ev.at
+					attempt = &st
+					m.connReqTx = append(m.connReqTx, ev.at)
+				}
 			}
+			continue
 		}
+		i := ev.rxi
+		x := v.rx[i]
+		lastRx = i
+		m.mode[i] = -1
 		switch mode {
-		case mdDead:
-			m.mode[i] = -1
 		case mdConnecting:
-			if x.F.OK && x.F.Svc == svcConnRes {
-				// is the reconnect exchange still open? (timeout T after its first transmission)
-				if att < len(attempts) {
-					// find the attempt this response belongs to: the latest one started before it
-					for att+1 < len(attempts) && attempts[att+1].Seq < x.At.Seq {
-						att++
-					}
-					el := x.At.T - attempts[att].T
-					if el > r.c.T+v.eps {
-						// too late: the exchange has timed out already (tunnel dead or never created)
-						continue
-					}
-					if el >= r.c.T-v.eps && x.F.Status != 0x24 && x.F.Status != 0x25 {
-						m.giveUp, m.giveUpAt = true, x.At
-						return m
+			if !x.F.OK || x.F.Svc != svcConnRes {
+				continue
+			}
+			if attempt == nil {
+				// a connect response before the client asked (cannot be consumed by a connect
+				// exchange that has not started: it is read and dropped, or consumed an instant
+				// later - ambiguous, stop modelling)
+				m.giveUp, m.giveUpAt = true, x.At
+				return m
+			}
+			el := x.At.T - attempt.T
+			if el > r.c.T+v.eps {
+				continue // the exchange has timed out already
+			}
+			if el >= r.c.T-v.eps && x.F.Status != 0x24 && x.F.Status != 0x25 {
+				m.giveUp, m.giveUpAt = true, x.At
+				return m
+			}
+			switch x.F.Status {
+			case 0:
+				cur = &connEpoch{Channel: x.F.Channel, Start: x.At, Ambig: -1, StallUntil: x.At.T}
+				for _, sc := range r.h.Sends {
+					if sc.Inv.Seq < x.At.Seq && (!sc.Done || sc.Ret.Seq > x.At.Seq) {
+						cur.Pending++
 					}
 				}
-				switch x.F.Status {
-				case 0:
-					cur = &connEpoch{Channel: x.F.Channel, Start: x.At, Ambig: -1}
-					m.epochs = append(m.epochs, cur)
-					mode = mdProcess
-					att++
-				case 0x24, 0x25:
-				default:
-					mode = mdDead
-					if len(m.epochs) > 0 {
-						st := x.At
-						m.term, m.termWhy = &st, "refused"
-					}
+				if cur.Pending > 0 {
+					cur.StallUntil = x.At.T + time.Duration(cur.Pending)*(r.c.T+v.eps)
+				}
+				m.epochs = append(m.epochs, cur)
+				mode = mdProcess
+				attempt = nil
+			case 0x24, 0x25:
+			default:
+				mode = mdDead
+				if len(m.epochs) > 0 {
+					st := x.At
+					m.term, m.termWhy = &st, "refused"
 				}
 			}
 		case mdProcess:
@@ -201,6 +231,7 @@ func buildConnModel(v *tunView) *connModel {
 				if x.F.Channel == cur.Channel {
 					endEpoch(x.At, "discreq", -1)
 					mode = mdConnecting
+					attempt = nil
 				}
 			case svcDiscRes:
 				if x.F.Channel == cur.Channel {
@@ -212,26 +243,11 @@ func buildConnModel(v *tunView) *connModel {
 			}
 		}
 	}
-	// An asynchronous reconnect after the last frame read.
-	if mode == mdProcess && cur != nil {
-		if a, ok := nextAsync(cur.Start.Seq); ok && (m.closeInv == nil || a.Seq < m.closeInv.Seq) {
-			amb := -1
-			if n := len(v.rx); n > 0 && m.mode[n-1] == len(m.epochs)-1 && v.rx[n-1].At.Seq < a.Seq {
-				amb = n - 1
-				m.mode[n-1] = -2
-			}
-			endEpoch(a, "async-reconnect", amb)
-			m.asyncReconnects++
-			mode = mdConnecting
-		}
-	}
-	if mode == mdConnecting && len(m.epochs) > 0 && m.term == nil && att < len(attempts) {
+	if mode == mdConnecting && len(m.epochs) > 0 && m.term == nil && attempt != nil {
 		// a reconnect exchange that never got its answer: the tunnel terminates T after its start
-		dead := Stamp{T: attempts[len(attempts)-1].T + r.c.T, Seq: ^uint64(0) >> 1}
-		if m.closeInv == nil || dead.T+v.eps < m.closeInv.T {
-			if r.h.Settled.T > dead.T+v.eps {
-				m.term, m.termWhy = &dead, "reconnect-timeout"
-			}
+		dead := Stamp{T: attempt.T + r.c.T, Seq: ^uint64(0) >> 1}
+		if (m.closeInv == nil || dead.T+v.eps < m.closeInv.T) && r.h.Settled.T > dead.T+v.eps {
+			m.term, m.termWhy = &dead, "reconnect-timeout"
 		}
 	}
 	if cur != nil && m.closeInv != nil {
